@@ -1,10 +1,10 @@
-\* C18 conn: design check (safety): all interleavings of callers (id allocation, pending map), notifiers, run loop, peer and cancellations.
+\* C18 conn: design check of the id handling: typed ids, stray responses with confusable ids, peer calls with numeric-looking string ids (thorough: IdVocab = "full").
 CONSTANTS
   NC = 2
-  NN = 1
-  MaxPN = 1
-  MaxPC = 0
-  MaxStray = 0
+  NN = 0
+  MaxPN = 0
+  MaxPC = 1
+  MaxStray = 1
   UseWriteMu = TRUE
   ChanCap = 1
   RegisterFirst = TRUE
